@@ -444,6 +444,15 @@ def state_cases(quick):
         dd.update(cc)
         dd['site'] = 'bulk'
         out.append(dd)
+    # elastic strain energy per phase (it enters the driving force for nucleation and the Gibbs-Thomson term of every size class alike)
+    strain = {'P1': {'eig': [0.012, 0.012, 0.012], 'calc': False}, 'P2': {'eig': [0.008, 0.008, 0.004], 'calc': False}}
+    for system in ('bin', 'tern'):
+        for nph in (1, 2):
+            for it in ('euler', 'rk4'):
+                for temp in (['iso'] if quick else ['iso', 'hrh']):
+                    dd = dict(base)
+                    dd.update({'system': system, 'nphases': nph, 'it': it, 'temp': temp, 'strain': strain, 'site': 'bulk'})
+                    out.append(dd)
     return out
 
 
